@@ -176,7 +176,14 @@ class Dispatcher:
             if name == "to_bytes":
                 return _int_to_bytes(recv, *args, **kwargs)
             if name == "bit_length":
-                raise Unsupported("bit_length of symbolic int")
+                v = sym_abs(recv)
+                k = 0
+                while True:
+                    if _b.bool(v < (1 << k)):
+                        return k
+                    k += 1
+                    if k > 80:
+                        raise Unsupported("bit_length beyond 80 bits")
             raise Unsupported("int.%s on symbolic int" % name)
         if isinstance(recv, SymChoice):
             return recv._lift(lambda a: self.callm(a, name, args, kwargs))
@@ -261,6 +268,11 @@ class Dispatcher:
             return bool(container.present(item))
         if isinstance(container, SymSet):
             return bool(container.contains(item))
+        if isinstance(container, SymRange):
+            return _b.bool(container.contains(item))
+        if isinstance(container, _b.range) and isinstance(item, SymInt):
+            c = b_and(item >= container.start, item < container.stop) if container.step == 1 else b_or(*[i_eq(item, k) for k in container])
+            return _b.bool(c)
         if isinstance(container, SymSeq):
             return container.__contains__(item)
         if isinstance(container, SymChoice):
@@ -653,6 +665,50 @@ def sym_ord(x):
     return _b.ord(x)
 
 
+class SymRange:
+    """range(a, b[, step]) with symbolic bounds (step concrete positive)"""
+
+    def __init__(self, a, b, step=1):
+        self.a, self.b, self.step = a, b, step
+
+    def contains(self, x):
+        c = b_and(x >= self.a, x < self.b)
+        if self.step != 1:
+            c = b_and(c, i_eq((x - self.a) % self.step, 0))
+        return c
+
+    def __contains__(self, x):
+        return _b.bool(self.contains(x))
+
+    def __iter__(self):
+        k = self.a
+        while _b.bool(k < self.b):
+            yield k
+            k = k + self.step
+
+    def __len__(self):
+        raise Unsupported("len of symbolic range")
+
+
+def sym_range(*a):
+    if not any(isinstance(x, SymInt) for x in a):
+        return _b.range(*a)
+    if len(a) == 1:
+        return SymRange(0, a[0])
+    if len(a) == 2:
+        return SymRange(a[0], a[1])
+    if isinstance(a[2], SymInt) or a[2] <= 0:
+        raise Unsupported("range with symbolic / non-positive step")
+    return SymRange(a[0], a[1], a[2])
+
+
+def sym_frozenset(it=()):
+    items = _b.list(it) if not isinstance(it, SymSet) else None
+    if items is not None and not any(is_sym(x) for x in items) and not isinstance(it, SymSet):
+        return _b.frozenset(items)
+    return sym_set(it)
+
+
 def sym_sorted(it, **kw):
     return _b.sorted(it, **kw)
 
@@ -674,6 +730,8 @@ SHADOW_BUILTINS = {
     "format": sym_format,
     "abs": sym_abs,
     "ord": sym_ord,
+    "range": sym_range,
+    "frozenset": sym_frozenset,
 }
 
 _UNSHADOW = {sym_str: _b.str, sym_bytes: _b.bytes, sym_set: _b.set, sym_float: _b.float, _IntShadow: _b.int}
